@@ -80,10 +80,12 @@ def main():
     skip_suite = "--skip-suite" in sys.argv
     meta = json.load(open(os.path.join(src, "meta.json")))
     pid = meta["property"]
+    prev = meta.get("lead_confirmation")
     dst = os.path.join(ROOT, "seeded", sid)
     os.makedirs(dst, exist_ok=True)
-    for fn in os.listdir(src):
-        shutil.copy(os.path.join(src, fn), os.path.join(dst, fn))
+    if os.path.realpath(src) != os.path.realpath(dst):
+        for fn in os.listdir(src):
+            shutil.copy(os.path.join(src, fn), os.path.join(dst, fn))
     wt = "/tmp/sv-" + sid
     subprocess.run(["git", "-C", "/repo", "worktree", "remove", "--force", wt], stderr=subprocess.DEVNULL)
     rc, out = sh(["git", "-C", "/repo", "worktree", "add", "-q", "--detach", wt, "HEAD"], "/")
@@ -167,6 +169,9 @@ def main():
     finally:
         subprocess.run(["git", "-C", "/repo", "worktree", "remove", "--force", wt])
         subprocess.run(["git", "-C", "/repo", "worktree", "prune"])
+    if skip_suite and prev:
+        conf["suite_confirmed_in_earlier_run"] = [st for st in prev.get("steps", []) if "existing suite" in st["step"]]
+        conf["earlier_check_results"] = prev.get("earlier_check_results", []) + [prev.get("check")]
     conf["confirmed"] = ok
     meta["lead_confirmation"] = conf
     json.dump(meta, open(os.path.join(dst, "meta.json"), "w"), indent=1)
